@@ -112,15 +112,32 @@ def writeExtHeader (orig : WEntry) (payload : Bytes) (typeflag : UInt8) (name : 
 
 def schilyPrefix : Bytes := ascii "SCHILY.xattr."
 
-/-- one `"%zu %s%s=" value "\n"` record of `write_schily_xattr` -/
-def schilyRecord (key value : Bytes) : Bytes :=
+/--
+Key of a `SCHILY.xattr.` record as the **repaired** writer emits it (`fixes/C04-xattr-key-escape.patch`): a PAX keyword ends
+at the first '=', so GNU tar (`xattr_encode_keyword`) writes '%' as "%25" and '=' as "%3D" — and so does the repaired
+`write_schily_xattr`.  The unrepaired code copies the key verbatim (`id`).
+-/
+def xattrEncodeKey : Bytes → Bytes
+  | [] => []
+  | c :: t =>
+    if c = 37 then 37 :: 50 :: 53 :: xattrEncodeKey t            -- '%' → "%25"
+    else if c = 61 then 37 :: 51 :: 68 :: xattrEncodeKey t       -- '=' → "%3D"
+    else c :: xattrEncodeKey t
+
+/-- one `"%zu %s%s=" value "\n"` record of `write_schily_xattr`, the key bytes as given -/
+def schilyRecordRaw (key value : Bytes) : Bytes :=
   let len := schilyPrefix.length + key.length + value.length + 3
   decStr (len + prefixDigitLen len) ++ [32] ++ schilyPrefix ++ key ++ [61] ++ value ++ [10]
 
-/-- `write_schily_xattr` -/
-def writeSchilyXattr (orig : WEntry) (name : Bytes) (xattrs : List (Bytes × Bytes)) : Bytes :=
-  let payload := (xattrs.map fun kv => schilyRecord kv.1 kv.2).flatten
+/-- … with the key escaped (repaired writer) -/
+def schilyRecord (key value : Bytes) : Bytes := schilyRecordRaw (xattrEncodeKey key) value
+
+/-- `write_schily_xattr`; `kenc` = what happens to a key (`xattrEncodeKey` repaired, `id` unrepaired) -/
+def writeSchilyXattrK (kenc : Bytes → Bytes) (orig : WEntry) (name : Bytes) (xattrs : List (Bytes × Bytes)) : Bytes :=
+  let payload := (xattrs.map fun kv => schilyRecordRaw (kenc kv.1) kv.2).flatten
   writeExtHeader orig payload 120 name                         -- 'x'
+
+def writeSchilyXattr := writeSchilyXattrK xattrEncodeKey
 
 /-- `write_hard_link` -/
 def writeHardLink (e : WEntry) (target : Bytes) (counter : Nat) : Bytes :=
@@ -144,10 +161,10 @@ def entryType (mode : Nat) : Option UInt8 :=
 
 /-- the extension records `write_tar_header` emits for a non-hard-link entry (PAX xattr record, GNU 'K', GNU 'L')
     and the name / link target left for the main header -/
-def extRecords (e : WEntry) (target : Option Bytes) (xattrs : List (Bytes × Bytes)) (counter : Nat) :
+def extRecordsK (kenc : Bytes → Bytes) (e : WEntry) (target : Option Bytes) (xattrs : List (Bytes × Bytes)) (counter : Nat) :
     Bytes × Bytes × Option Bytes :=
   let c := decStr counter
-  let px := if xattrs.isEmpty then [] else writeSchilyXattr e (ascii "pax/xattr" ++ c) xattrs
+  let px := if xattrs.isEmpty then [] else writeSchilyXattrK kenc e (ascii "pax/xattr" ++ c) xattrs
   let isLnk := fmt e.mode = S_IFLNK
   let slink := if isLnk then target else none
   let (pk, slink) :=
@@ -159,19 +176,27 @@ def extRecords (e : WEntry) (target : Option Bytes) (xattrs : List (Bytes × Byt
     else ([], e.name)
   (px ++ pk ++ pl, name, slink)
 
+def extRecords := extRecordsK xattrEncodeKey
+
 /--
 `write_tar_header`, **repaired** order (`fixes/C04-socket-skip-before-ext-records.patch`): the type is decided
 before anything is appended, so an unsupported entry (`none`) leaves the stream untouched.
 -/
-def writeTarHeader (e : WEntry) (target : Option Bytes) (xattrs : List (Bytes × Bytes)) (counter : Nat) :
+def writeTarHeaderK (kenc : Bytes → Bytes) (e : WEntry) (target : Option Bytes) (xattrs : List (Bytes × Bytes)) (counter : Nat) :
     Option Bytes :=
   if e.hardLink then some (writeHardLink e (target.getD []) counter)
   else
     match entryType e.mode with
     | none => none
     | some t =>
-      let (pre, name, slink) := extRecords e target xattrs counter
+      let (pre, name, slink) := extRecordsK kenc e target xattrs counter
       some (pre ++ writeHeaderRec e name slink t)
+
+/-- `write_tar_header`, repaired (socket refused before anything is written; xattr keys escaped) -/
+def writeTarHeader := writeTarHeaderK xattrEncodeKey
+
+/-- `write_tar_header` with the xattr keys copied verbatim (the code before `fixes/C04-xattr-key-escape.patch`) -/
+def writeTarHeaderRawKeys := writeTarHeaderK id
 
 /--
 `write_tar_header` of the unrepaired code: the extension records are appended first and the unsupported
@@ -181,7 +206,7 @@ def writeTarHeaderCur (e : WEntry) (target : Option Bytes) (xattrs : List (Bytes
     Bytes × Bool :=
   if e.hardLink then (writeHardLink e (target.getD []) counter, true)
   else
-    let (pre, name, slink) := extRecords e target xattrs counter
+    let (pre, name, slink) := extRecordsK id e target xattrs counter
     match entryType e.mode with
     | none => (pre, false)
     | some t => (pre ++ writeHeaderRec e name slink t, true)
